@@ -147,7 +147,10 @@ PROVED (second part of this section): M_ws = S_ws for every chunk list —
       theorem ws_reader_eq_spec (mode) (accept) (chunks : List Bytes) :
           wsObs (Ws.feed mode accept {} chunks) = specObs (Ws.run (Ws.validator mode accept) mode chunks.flatten)
 
-    is false for the model as transcribed; the `_partial` theorems exclude exactly the header blocks with such a line.
+    is false for the model as transcribed; the `_partial` theorems exclude exactly the header blocks with such a line;
+  * every byte stream, every chunk list, no hypothesis (`ws_reader_no_oob`, `ws_reader_final_state`;
+    Lemmas/StreamWsSafe.lean): the reader never leaves `http_hdr[160]` / `rd_header[14]`, never stalls with bytes
+    available, and an open session holds at most an unfinished header line or a proper prefix of one frame.
 
 Method (Lemmas/StreamWs{Defs,Hs,Frames,Session,Feed}.lean): the abstraction `Abs` = (phase, bytes consumed but not yet
 delivered), the invariant `WsInv mode st a` tying (http_hdr, seen_*, rd_header/hdr_ofs, all_hdr_in, mask_key, data_size,
@@ -397,12 +400,22 @@ example : hsCleanOf .server [] {} wsDemo = true := by decide +kernel
 /-- S: two messages, session up and open -/
 example : specObs (run (validator .server []) .server wsDemo) =
     ([⟨0, 1, 0, [], [], []⟩, ⟨0, 1, 0, [], [(11, [])], []⟩], .open true) := by decide +kernel
-/-- M, two different cut lists: inside the first line / the key line / the empty line / the mask key / the payload;
+/-- M, two different cut lists: inside the first line (5) / the key line (105) / between CR and LF of the empty line
+(185) / at the end of the block / in the mask key / in the payload / at a frame boundary / in the next mask key;
 and 14-byte reads that carry frame bytes over from the line buffer -/
-example : wsObs (Coap.M.Ws.feed .server [] {} (segment wsDemo [5, 100, 68, 1, 4, 3, 1, 9])) =
+example : wsObs (Coap.M.Ws.feed .server [] {} (segment wsDemo [5, 100, 80, 1, 4, 3, 1, 9])) =
     ([⟨0, 1, 0, [], [], []⟩, ⟨0, 1, 0, [], [(11, [])], []⟩], .open true) := by decide +kernel
 example : wsObs (Coap.M.Ws.feed .server [] {} (segment wsDemo [180, 2])) =
     ([⟨0, 1, 0, [], [], []⟩, ⟨0, 1, 0, [], [(11, [])], []⟩], .open true) := by decide +kernel
+/-- the stream ends inside the payload of the last frame: one message delivered, session open, and the reader holds
+exactly the bytes of the unfinished frame (`wsAbs`), under two cut lists (one byte of payload in `rd_header` / in
+`rx_data` only) -/
+example : wsObs (Coap.M.Ws.feed .server [] {} (segment (wsDemo.take (wsDemo.length - 1)) [5, 100, 80, 1, 4, 3, 1, 9])) =
+    ([⟨0, 1, 0, [], [], []⟩], .open true) := by decide +kernel
+example : (match (Coap.M.Ws.feed .server [] {} (segment (wsDemo.take (wsDemo.length - 1)) [180, 2])).2.1 with
+    | .open st => wsAbs st | _ => .hs {} []) = .fr [0x82, 0x83, 1, 2, 3, 4, 1, 3] := by decide +kernel
+example : (match (Coap.M.Ws.feed .server [] {} (segment (wsDemo.take (wsDemo.length - 1)) [5, 100, 80, 1, 4, 3, 1, 9, 4])).2.1 with
+    | .open st => wsAbs st | _ => .hs {} []) = .fr [0x82, 0x83, 1, 2, 3, 4, 1, 3] := by decide +kernel
 /-- the sub-domain excluded by `hsCleanOf` is one where M_ws and S_ws really differ: a header line that starts
 with a blank is taken by libcoap for the end of the header block (here: refused, headers missing), by S for an
 ordinary header line (block not finished) -/
